@@ -25,7 +25,7 @@ from harness import common
 
 PROPERTY = 'C18'
 ROLES = ['p', 'q', 'x', 'n', 'o', 'a', 'b', 'c', 'c_old', 'u', 'v', 'w',
-         '\u00e9\U0001f600']
+         '\u00e9\U0001f600', 'Cloud Admin']
 
 
 def _defaults(kind):
@@ -62,6 +62,7 @@ def _forms(name, default_cs, new_names=()):
         ('variant', '( %s )' % default_cs if default_cs else '@'),
         ('different', 'role:u and not role:v'),
         ('list', [['role:u'], ['role:v', 'role:w']]),
+        ('list-blank', [['role:Cloud Admin'], ['role:v', 'role:w']]),
         ('quoted', "'lit':%(k)s or role:u"),
         ('dquoted', '"lit":%(k)s or role:u'),
         ('unicode', 'role:u or role:\u00e9\U0001f600'),
@@ -90,7 +91,7 @@ def _file_for(ctx, kind, tool, small=False):
             rules[name] = val
     if small:
         pick('p', 'role:p', allow=['absent', 'default', 'variant',
-                                   'different', 'list'])
+                                   'different', 'list', 'list-blank'])
         pick('q', 'role:q or role:x', allow=['absent', 'variant', 'dquoted'])
         pick('u', None, allow=['absent', 'list', 'dquoted', 'unicode'])
     else:
